@@ -310,6 +310,45 @@ def null_const(r):
     return layers
 
 
-FAMILIES = {"null_const": lambda r: null_const(r), "empty_segments": empty_segments, "override_through_path": override_through_path, "empty_const": empty_const,
+def odd_keys(r):
+    """Keys that are only a marker ("~", "="), the empty key, and keys with leading/trailing whitespace, written by one
+    or two layers and read through references that spell them exactly."""
+    k1 = r.choice(["tier ", " env", "cpu\t", "a b", "tier", " "])
+    bare = k1.strip() or "x"
+    labels = [[k1, G.I(42)], [bare, "backend"]] if r.chance(2, 3) else [[k1, G.I(42)]]
+    layers = [G.M([["labels", G.M(labels)], ["u1", "${labels:%s}" % k1], ["u2", "t=${labels:%s}" % k1], ["u3", "${labels:%s}" % bare]])]
+    mk = r.choice(["~", "=", "", "~", "="])
+    first = r.choice([[G.I(1)], G.M([["a", G.I(1)]]), G.I(1)])
+    layers.append(G.M([["", first]]) if r.chance(1, 2) else G.M([["pad", G.I(0)]]))
+    layers.append(G.M([[mk, r.choice([[G.I(2)], G.M([["b", G.I(2)]]), G.I(2)])]]))
+    if r.chance(1, 2):
+        layers.append(G.M([[r.choice(["", "=", "~"]), r.choice([[G.I(3)], G.I(3)])]]))
+    if r.chance(1, 2):
+        layers.append(G.M([["nested", G.M([[mk, G.I(5)], ["", G.I(6)]])]]))
+    return layers
+
+
+def dup_in_one_mapping(r):
+    """One YAML mapping writes a key twice (~k and k, =k and k, k and ~k): the value stored for k in that layer is
+    itself a layer list with a pending flag; it is merged onto a key that earlier layers already define."""
+    kind = r.choice(["list", "map", "scalar"])
+    def v(i):
+        return [G.I(i)] if kind == "list" else (G.M([["k%d" % i, G.I(i)]]) if kind == "map" else G.I(i))
+    nested = r.chance(1, 2)
+    def wrap(pairs):
+        return G.M([["app", G.M(pairs)]]) if nested else G.M(pairs)
+    layers = [wrap([["ports", v(0)]])]
+    if r.chance(1, 2):
+        layers.append(wrap([["ports", v(9)]]))
+    a, b = r.choice([("~ports", "ports"), ("ports", "~ports"), ("=ports", "ports"), ("~ports", "=ports"), ("ports", "ports")])
+    layers.append(wrap([[a, v(1)], ["other", G.I(5)], [b, v(2)]]))
+    if r.chance(1, 3):
+        layers.append(wrap([["ports", v(3)]]))
+    if r.chance(1, 2):
+        layers.append(G.M([["use", "${app:ports}" if nested else "${ports}"]]))
+    return layers
+
+
+FAMILIES = {"dup_in_one_mapping": dup_in_one_mapping, "odd_keys": odd_keys, "null_const": lambda r: null_const(r), "empty_segments": empty_segments, "override_through_path": override_through_path, "empty_const": empty_const,
             "deep_ref_layers": deep_ref_layers, "repeated_layers": repeated_layers, "escapes_in_containers": escapes_in_containers,
             "both_flags": both_flags}
